@@ -16,7 +16,7 @@ def explicit(tier, seed):
     i = 0
     for polls in (1, 2, 3, 5):
         for fnk in ("inc", "wrap", "append", "vals", "mutate", "mutate-dict"):
-            for serdes in (None, "json", "tagged"):
+            for serdes in (None, "json", "tagged", "ctxbound"):
                 if fnk == "wrap" and serdes is not None:
                     continue  # tuples are outside the JSON serdes' exact domain
                 init = {"inc": rng.randrange(5), "wrap": gen_value(rng), "append": [], "vals": gen_value(rng, json_only=serdes is not None),
@@ -62,7 +62,7 @@ SPEC = Spec(
     quick={"plain": 40, "enum": 6, "rand": 16, "async": 8},
     thorough={"plain": 300, "enum": 80, "rand": 300, "async": 150, "perturb": 60},
     rule="(a) world runs: wait_for_condition with states over the serializer's domain (ints, nested tuples/Decimals/dicts, lists), "
-    "state functions (increment, wrap, append, in-place mutation of a list/dict returning the same object, scripted values; checks failing at poll 1-3 with user and SDK error classes, caught by the workflow), decision scripts (stop at n; delays 0,1,2,30), default/JSON/custom "
+    "state functions (increment, wrap, append, in-place mutation of a list/dict returning the same object, scripted values; checks failing at poll 1-3 with user and SDK error classes, caught by the workflow), decision scripts (stop at n; delays 0,1,2,30), default/JSON/custom/context-bound "
     "serdes, at top level and inside branches x crash points between polls: poll 1 receives the initial state, poll n+1 receives "
     "exactly what poll n returned, the strategy sees the new state and backend retries+1, continue => RETRY with payload and delay>=1 "
     "applied before suspension, stop => SUCCEED and the call returns the last state, never polled while PENDING; (b) direct: "
